@@ -138,8 +138,7 @@ class _RemotePathMapper:
         for data_loc in node.locations.get(location.deployment, {}).get(
             location.name, set()
         ):
-            data_loc.data_type = DataType.INVALID
-            node.valid_paths[location.deployment][location.name].discard(data_loc.path)
+            self.invalidate_data_location(data_loc)
         # Propagate
         for node_child in node.children.values():
             for data_loc in node_child.locations.get(location.deployment, {}).get(
@@ -155,9 +154,15 @@ class _RemotePathMapper:
             node = self._filesystem
             for token in Path(related_location.path).parts:
                 node = node.children[token]
-            node.valid_paths.get(data_location.deployment, {}).get(
-                data_location.name, set()
-            ).discard(data_location.path)
+            if any(
+                loc is data_location
+                for loc in node.locations.get(data_location.deployment, {}).get(
+                    data_location.name, []
+                )
+            ):
+                node.valid_paths[data_location.deployment][data_location.name].discard(
+                    data_location.path
+                )
 
     def put(
         self, path: str, data_location: DataLocation, recursive: bool = False
